@@ -2,7 +2,7 @@
 from ..engine import site_of
 from ..facts import op_place, op_local, op_const, AnchorError
 from ..callgraph import callee_is
-from ..mirutil import (root_place, op_root, deep_root, origin, defuse, calls_in, place_is_field, success_edges, field_writes,
+from ..mirutil import (option_some_edges, deep_root_through_try, root_place, op_root, deep_root, origin, defuse, calls_in, place_is_field, success_edges, field_writes,
                        aggregates, result_return_sites, dominated_by_ok)
 from ..region import dominated_by_edges, write_summary
 from ..decision import enum_switch_edges
@@ -10,14 +10,8 @@ from .. import anchors as A
 
 
 def _some_edges(body, pred):
-    """Switch edges selecting Some of an Option place satisfying pred(root place)."""
-    out = set()
-    for (edge, place, ty, val, is_oth) in enum_switch_edges(body):
-        if is_oth or val != 1 or ty.k != "adt" or not ty.d["path"].endswith("option::Option"):
-            continue
-        if pred(root_place(body, place)):
-            out.add(edge)
-    return out
+    """Edges selecting Some of an Option place satisfying pred(root place): match / if let / `?` / is_some()."""
+    return option_some_edges(body, pred)
 
 
 def r1_constants_by_site(cx):
@@ -141,7 +135,7 @@ def r3_confirmed_key_belongs_to_secret(cx):
         if b.did != cyc.did or not tk:
             continue
         rv = s["rv"]
-        kr = deep_root(cyc, rv["ops"][rv["fields"].index("key")])
+        kr = deep_root_through_try(cyc, rv["ops"][rv["fields"].index("key")])
         cx.check("cycle-installs-pending-key", kr is not None and kr["l"] == tk[0][1]["dest"]["l"], site_of(b, span=s["span"]), "the key emitted by cycle() is the pending key")
 
 
